@@ -141,6 +141,10 @@ def check(run, driver):
         with quiet():
             discover_network(r.standard_normal((25, 2)), max_lag=1, n_shuffles=4, information=["gaussian", "knn"][int(r.integers(0, 2))], method=METHODS[int(r.integers(0, 4))])
 
+    def act_other_counts(r):
+        with quiet():
+            discover_network(r.poisson(float(r.uniform(0.5, 4)), size=(24, 2)).astype(float), max_lag=1, n_shuffles=3, information="poisson", method=["lasso", "standard"][int(r.integers(0, 2))])
+
     def act_plot(r):
         import matplotlib
         matplotlib.use("Agg")
@@ -153,7 +157,7 @@ def check(run, driver):
         plt.close("all")
 
     actions = [lambda r: np.random.seed(int(r.integers(0, 1000))), lambda r: random.seed(int(r.integers(0, 1000))), lambda r: np.random.rand(int(r.integers(1, 9))),
-               lambda r: random.random(), act_other, act_plot]
+               lambda r: random.random(), act_other, act_plot, act_other_counts]
     for pi, (info, method, data, kw) in enumerate(probes):
         first = None
         hist_len = int(rng.integers(3, 9))
@@ -178,6 +182,25 @@ def check(run, driver):
             run.prop_fail("equal data and parameters gave different graphs depending on what was computed before", case, {"clause": "history", "estimator": info}, {"first": results[0], "later": results[k], "step": k})
         elif results and [list(x) for x in results[0]] != [list(x) for x in fresh_results[pi]]:
             run.prop_fail("result differs from the result of the same call in a fresh process", case, {"clause": "history", "estimator": info}, {"here": results[0], "fresh": fresh_results[pi]})
+    # ---- (ii-b) the same array / frame OBJECT refilled in place between two calls must behave like a fresh object with those numbers
+    for it in range(16 if thorough else 6):
+        info = ["gaussian", "knn", "kde"][it % 3]; method = METHODS[it % 4]
+        n = 2; T = int(rng.integers(30, 45))
+        d1, d2 = make_data(info, rng, n, T), make_data(info, rng, n, T)
+        kw = dict(method=method, information=info, max_lag=int(rng.integers(1, 3)), n_shuffles=6, alpha_forward=0.1, alpha_backward=0.1, k_means=3)
+        buf = d1.copy() if it % 2 == 0 else pd.DataFrame(d1.copy(), columns=["X0", "X1"])
+        with quiet():
+            discover_network(buf, **kw)
+            if isinstance(buf, pd.DataFrame):
+                buf.iloc[:, :] = d2
+            else:
+                buf[:] = d2
+            g_reused = graph_repr(discover_network(buf, **kw))
+            g_fresh = graph_repr(discover_network(d2.copy(), **kw))
+        run.case("buffer-reuse", [info, method, kw["max_lag"], float(d1[0, 0])], bool(g_fresh))
+        if g_reused != g_fresh:
+            run.prop_fail("the result depends on what was computed before: the same data object refilled in place gives a different graph than a fresh object holding the same numbers",
+                          {"information": info, "method": method, "kw": kw, "first_data": d1, "second_data": d2}, {"clause": "history", "estimator": info}, {"reused_object": g_reused, "fresh_object": g_fresh})
     # ---- (iii) presentations
     for it in range(40 if thorough else 12):
         info = ESTIMATORS[it % 5]
@@ -186,7 +209,7 @@ def check(run, driver):
         method = METHODS[(it // 5 + it) % 4]
         n = int(rng.integers(2, 4)); T = 28 if info in ("geometric_knn", "poisson") else int(rng.integers(28, 45))
         data = make_data(info, rng, n, T)
-        if info == "poisson" or it % 4 == 0:
+        if info == "poisson" or it % 4 == 0 or it < 5:
             data = np.round(data * (1 if info == "poisson" else 4))   # integer-valued numbers: int and float presentations exist
         kw = dict(method=method, information=info, max_lag=int(rng.integers(1, 3)), n_shuffles=6, alpha_forward=0.1, alpha_backward=0.1, k_means=3)
         labels = [f"col{c}" for c in range(n)]
